@@ -8,7 +8,7 @@ import graphemit as GE
 
 PROP = 'C05'
 COQ_IMPORTS = ['PT.Base.Scalar', 'PT.Base.Mx', 'PT.Model.OpGraph', 'PT.Model.Tensor', 'PT.Model.FromOpchains', 'PT.Model.GraphMPO',
-               'PT.Proofs.DenRev_C05']
+               'PT.Proofs.DenRev_C05', 'PT.Proofs.FromOpchainsOk3']
 COQ_PREAMBLE = (E.QC_PREAMBLE +
                 'Definition q0 : QI := (qcm 0 1, qcm 0 1).\n'
                 'Definition qz (n : Z) : QI := (qcm n 1, qcm 0 1).\n'
@@ -34,11 +34,13 @@ IMPL_PARALLEL = True
 TRUSTED = ['hand-written Gallina mirrors Model/FromOpchains.v and Model/GraphMPO.v, tied to the code by exact agreement on every generated case',
            'Model/OpGraph.v core (den, is_consistent_fuel, graph_eqb)',
            'independent references in harness/props/c05.py (free-algebra path enumeration, dense kron sums, layer BFS) — search only']
-PARTIAL = ('proved for all inputs (Properties/C05.v): every graph returned by from_opchains, for every cover oracle, denotes the sum of the '
-           'identity-padded chains (duplicates, accumulation, cancellation, single chain with any coefficient); den = den_rev on linked graphs; '
-           'from_opgraph: layers, qD = node charges in id order, nid_map, block sparsity, opamp = word sum of den (any graph whose last layer is the end terminal); '
-           'chains -> MPO end to end. NOT proved, validated on every case: that construction succeeds on valid input (no assert fires), '
-           'is_consistent / length L / linkage of the returned graph (evaluated in Coq per case), charges along paths.')
+PARTIAL = ('proved for all inputs (Properties/C05.v): under wf_chains and valid cover answers on the issued calls (covers_ok; also with the proved '
+           'Bipartite.v model of minimum_vertex_cover and no cover hypothesis) from_opchains returns a graph, the graph passes the linkage check '
+           '(ids unique, edge-id lists duplicate free, node<->edge cross references, terminals present) and den g = sum of the identity-padded chains '
+           '(duplicates, accumulation, cancellation, single chain with any coefficient); the meaning clause holds for every returned graph and every cover oracle; '
+           'from_opgraph: layers, qD = node charges in id order, nid_map, block sparsity, opamp = word sum of den; chains -> MPO end to end. '
+           'NOT proved, validated on every case (evaluated in Coq): the level/terminal/sorted part of is_consistent, glength g = L, charges along paths. '
+           'The hypotheses wf_chains and covers_ok are themselves evaluated on every successful case with the recorded covers.')
 ASSUMPTIONS = ['the tensor accumulation loop of MPO.from_opgraph is modelled by its meaning as an index comprehension (validated exactly on every case)']
 
 
@@ -721,8 +723,10 @@ def coq(case, r):
             pass   # OpChain.__init__ raised: the model's chain_ok check
         return 'check_chains (R := QIring) %s %s %s %s 1%%nat %s' % (tbl, chains, E.nat(case['L']), E.z(case['idn']), err_lit(r['error']))
     g = graph_lit(r['graph'])
-    t = 'let g := %s in let tbl := %s in let chains := %s in check_chains (R := QIring) tbl chains %s %s %s (Ok g) && hyp_ok g' % (
-        g, tbl, chains, E.nat(case['L']), E.z(case['idn']), big_nat(bfs_fuel(r['graph'])))
+    t = 'let g := %s in let tbl := %s in let chains := %s in check_chains (R := QIring) tbl chains %s %s %s (Ok g) && hyp_ok g && covers_ok QIring (cover_table tbl) chains %s %s' % (
+        g, tbl, chains, E.nat(case['L']), E.z(case['idn']), big_nat(bfs_fuel(r['graph'])), E.nat(case['L']), E.z(case['idn']))
+    if all(len(c['oids']) + c['istart'] <= case['L'] for c in case['chains']):
+        t += ' && wf_chains %s chains' % E.nat(case['L'])   # the theorem's hypothesis (also asks zero-coefficient chains to fit)
     m = r.get('mpo')
     if m is not None:
         exp = err_lit(m['error']) if 'error' in m else mpo_lit(case, m)
